@@ -20,7 +20,7 @@ LEVEL_NOTE = ("Trusted: in-process emulation of process death (cross-checked aga
               "starlette/instrumentation. A handler still 'running' 200 virtual seconds after the restart with nothing scheduled counts as 'stays running forever'.")
 DESIGN_REF = "§5 C13"
 RULE = "case = (deterministic program, crash after persisted tick k), all k enumerated; distinct = hash(program seed, k); non-trivial = crash lands before the terminal tick"
-REQUIRED_REACH = ["crash_point", "restart", "resumed_completed", "terminal_prefix_finalised", "crash_after_step_result", "crash_after_add_event", "terminal_prefix_fail", "terminal_prefix_cancel", "terminal_prefix_timeout", "resumed_to_same_failure"]
+REQUIRED_REACH = ["crash_point", "restart", "resumed_completed", "terminal_prefix_finalised", "crash_after_step_result", "crash_after_add_event", "terminal_prefix_fail", "terminal_prefix_cancel", "terminal_prefix_timeout", "resumed_to_same_failure", "hitl_program"]
 ASSUMPTIONS = ["workflows deterministic and idempotent under re-execution by construction (gen_det)"]
 
 
@@ -35,6 +35,18 @@ def gen_case(seed):
 
     rnd = random.Random(seed)
     mode = rnd.choice(["complete", "complete", "complete", "fail", "cancel", "timeout"])
+    if mode == "complete" and rnd.random() < 0.2:
+        # human in the loop: the run idles in wait_for_event (still in memory), the answers arrive from outside, and the
+        # process dies after any tick persisted from then on
+        from vf import idle_cases as ic
+
+        spec, keys = ic.gen_program(rnd, n=1)   # one item: the result does not depend on an order
+        spec["sched_seed"] = seed
+        spec["family"] = "det"
+        spec["hitl_sends"] = [{"at": 3.0 + 0.5 * i, "key": k} for i, k in enumerate(keys)]
+        if rnd.random() < 0.3:
+            spec["store_latency"] = 0.05
+        return {"seed": seed, "family": "det", "mode": mode, "spec": spec, "cancel_at": None}
     if mode == "complete" and rnd.random() < 0.25:
         spec = gen.gen_dupfan(rnd)
         spec["sched_seed"] = seed
@@ -70,6 +82,11 @@ def run_crash(spec, db, crash_at, cancel_at=None):
         store = sr.fault_store("sqlite", db, crash_at=crash_at, log=[], latency=spec.get("store_latency"))
         proc = await sr.Proc(spec, store).start()
         await proc.start_run("h1", case.tr.rec)
+        for sd in spec.get("hitl_sends") or []:
+            async def send_at(sd=sd):
+                await asyncio.sleep(sd["at"])
+                await proc.send("h1", "Answer", {"key": sd["key"]}, case.tr.rec)
+            out.setdefault("senders", []).append(asyncio.ensure_future(send_at()))
         if cancel_at is not None:
             await asyncio.sleep(cancel_at)
             try:
@@ -94,6 +111,11 @@ def run_crash(spec, db, crash_at, cancel_at=None):
         async def p2():
             store = sr.fault_store("sqlite", db, log=[], latency=spec.get("store_latency"))
             proc = await sr.Proc(spec, store).start()
+            for sd in spec.get("hitl_sends") or []:
+                # the human answers (again) after the restart: an answer the dead process had not persisted is simply repeated,
+                # one it had persisted finds its waiter resolved
+                await asyncio.sleep(5.0)   # (well after a re-run step has registered its wait again)
+                await proc.send("h1", "Answer", {"key": sd["key"]}, case.tr.rec)
             await asyncio.sleep(300)
             out["h"] = sr.handler_view(await proc.handler("h1"))
 
@@ -201,6 +223,8 @@ def run_one(case, acc, only_k=None):
             return
         n = len(ref["ticks"])
         acc.sample({"seed": case["seed"], "persisted_ticks": [t["type"] for t in ref["ticks"]], "reference": ref["h"]})
+        if case["spec"].get("hitl_sends"):
+            acc.hit("hitl_program")
         for k in range(1, n + 1):
             if only_k is not None and k != only_k:
                 continue
